@@ -85,6 +85,10 @@ def positive_vars_of(senv: SymEnv) -> set:
 
 
 SYMBOLIC_OBS = [False]
+# C20 (logic circuits 'compiled with default inputs'): tensor parameters with a constant initialiser keep
+# their initial value instead of becoming solver variables
+FIXED_INIT = [False]
+ORACLES: dict = {}
 
 
 def setup_leaves(sc: Circuit, senv: SymEnv, monotone: bool, normalized: bool = False, extra_specs: dict | None = None):
@@ -129,6 +133,15 @@ def setup_leaves(sc: Circuit, senv: SymEnv, monotone: bool, normalized: bool = F
             continue
         if isinstance(p, SP.ConstantParameter):
             continue
+        if FIXED_INIT[0]:
+            from cirkit.symbolic.initializers import ConstantTensorInitializer
+
+            if isinstance(p.initializer, ConstantTensorInitializer):
+                v0 = p.initializer.value
+                if isinstance(v0, np.ndarray):
+                    v0 = np.broadcast_to(v0, p.shape)
+                senv.penv.leaves[p] = refsem.const_array(v0, p.shape)
+                continue
         senv.new_param(p, specs.get(p, LeafSpec(positive=monotone)))
     return leaves
 
@@ -220,6 +233,8 @@ def reference(oracle, circuit_desc, sc, senv, rows):
         # the circuit is claimed to be identically one (partition function of a normalised model)
         one = Val.const(1.0)
         return [[np.asarray([one] * o.num_output_units, dtype=object) for o in sc.outputs] for _ in rows]
+    if oracle in ORACLES:
+        return ORACLES[oracle](circuit_desc, sc, senv, rows)
     return {"pipe": opcheck.pipe_oracle}[oracle](circuit_desc, sc, senv, rows)
 
 
